@@ -176,6 +176,7 @@ ASSUMPTIONS = [
     "Data2D: camera channels below 2**15 (written through the signed, read through the unsigned 16-bit codec); a cell is None or holds 1..65535 points",
     "counting: the number of non-unused table slots is the live count under the invariant; on an arbitrary table (CT.hole.*) it satisfies 0 <= c <= N and the pigeonhole fact (first c slots live => no later slot live) -- assumed, cardinality",
     "container proofs start from ordered files (live entries first, unused offsets at or after the end of live data); block dates and format codes of the NEW block are unconstrained (an un-encodable entry must be refused before anything is touched)",
+    "importing a module from outside the repository that has no contract here (time, logging, ...) has no effect on the repository's state; anything USED from it is out of reach (undecided) at the point of use",
     "the VC generator itself (pyvc) -- mitigated by canaries, cover checks and the seeded-break catalogue",
 ]
 TRUSTED = ["z3 4.x (z3-solver 5.1 wheel)", "cvc5 1.0.3 (fallback for z3 unknowns)", "pyvc symbolic executor + stream normaliser",
@@ -357,6 +358,7 @@ def main(argv=None):
     empty = [n for n in cfg["decisive"] if not by[n]["results"] and not by[n]["undecided"] and not by[n]["crash"]]
     # bounded suites on the real code (always: they are also the replay of refuted obligations)
     layouts_hit = sorted({_layout_of_task(r["task"]) for r in failing} | {_layout_of_task(u["task"]) for u in undecided} - {None})
+    suite_incomplete = None
     try:
         standins, hfails = run_harness(pid, cfg, seed, tier, src)
         if (failing or undecided) and not hfails:
@@ -365,8 +367,17 @@ def main(argv=None):
         harness_ok = True
     except Exception as e:
         standins, hfails, harness_ok = [], [], False
-        print(f"CHECKER-ERROR bounded suites crashed: {type(e).__name__}: {e}")
-        traceback.print_exc(limit=6)
+        tb = traceback.extract_tb(e.__traceback__)
+        inner = tb[-1] if tb else None
+        if inner is not None and os.path.realpath(inner.filename).startswith(os.path.realpath(src) + os.sep):
+            # the tree under check raised on a request the suites take to be valid and no clause of this property is about
+            # that request: the suites could not finish -- neither a violation of THIS property nor a fault of the checker
+            suite_incomplete = f"{type(e).__name__}: {e} raised at {os.path.relpath(inner.filename, src)}:{inner.lineno}"
+            harness_ok = True
+            print(f"UNDECIDED bounded suites could not complete: {suite_incomplete} (inside the tree under check, on a request the suites take to be valid)")
+        else:
+            print(f"CHECKER-ERROR bounded suites crashed: {type(e).__name__}: {e}")
+            traceback.print_exc(limit=6)
     if os.environ.get("VERIF_DEBUG"):
         import basictdf as _b
         print("DEBUG harness library:", _b.__file__, "failures:", len(hfails), [f["kind"] for f in hfails[:5]])
@@ -471,6 +482,8 @@ def main(argv=None):
         print(f"VIOLATION property={pid} replay={path}" + (" no-failing-input-found" if nofail else "") + f"   # {text[:300]}")
     if violations:
         return 1
+    if suite_incomplete:
+        return 2
     return 0
 
 
